@@ -850,16 +850,6 @@ def remove_interleaved_projects_full : Prop :=
     irun limit c w addrs x0 evs = some x → x.fin = true →
     Inv { c with own := own', wallets := ws', node := x.node } x.s x.node.chain
 
-/-- **remove_interleaved_projects_literal_false.**  The full statement is FALSE of the model: with step size 1, W2's
-    coinbase C1 pays W2 twice and W1 once, X3 spends both coins of W2.  Step 1 deletes one credit with its debit and —
-    X3 being needed by nobody else — X3's tx record; a reorganisation below C1's block then cannot roll X3 back
-    (no record) but rolls C1 back (W1 needs it), erasing the other credit; the finishing step finds nothing left of W2
-    and the debit of the erased credit stays for ever (`MW.Lemmas.RemoveMidCex`; on the real code, with 20 003 credits:
-    corpus-candidates/C08-reorg-between-steps-dangling-debit.ops, `dangling` = `d:X3:1`; candidate repair
-    fixes/C08-interleaved-debit.patch: a tx record is kept while a credit or a debit of its transaction is left). -/
-theorem remove_interleaved_projects_literal_false : ¬ remove_interleaved_projects_full :=
-  MW.Lemmas.RemoveMidCex.not_interleavedProjects
-
 /-- **remove_flagged_follower_keeps.**  While `w` is flagged for removal (not ready) and no removal step has run, a
     notification of ANY block of the node's best chain — tip extension or reorganisation, above, at or below the height
     at which the wallet was flagged — succeeds and keeps the joined-store invariant `FJ` (C07's `ScanJS` with a ghost
